@@ -128,6 +128,19 @@ class BuiltinV(V):
         self.name = name
 
 
+class ExtV(V):
+    """an object outside the verified module (an imported module or function, or a value an external contract returned):
+    everything it can do is given by its handler -- attr(vm, name), call(vm, args, kwargs), truth(vm); anything else the
+    code does with it is outside the subset.  Identity is the handler's `key`."""
+    pytype = "external"
+
+    def __init__(self, key, attr=None, call=None, truth=None):
+        self.key, self._attr, self._call, self._truth = key, attr, call, truth
+
+    def __repr__(self):
+        return "Ext(%s)" % (self.key,)
+
+
 class GenV(V):
     """already-evaluated generator expression (elements evaluated lazily at unpacking time)"""
     pytype = "generator"
@@ -288,9 +301,11 @@ class Module:
             return ClsV(name)
         if name in self.functions:
             return self.functions[name]
+        if name in getattr(self, "externals", {}):
+            return self.externals[name]
         if hasattr(self.real, name):
             x = getattr(self.real, name)
-            if isinstance(x, (dict, set, frozenset, list, tuple)):
+            if isinstance(x, (dict, set, frozenset, list, tuple, str)):
                 return ConstV(x)
             if isinstance(x, (int, bool)):
                 return const_to_value(x)
@@ -365,6 +380,8 @@ class VM:
             return len(v.chars) > 0
         if isinstance(v, (ClsV, EnumV, FuncV)):
             return True
+        if isinstance(v, ExtV) and v._truth is not None:
+            return v._truth(self)
         raise OutsideSubset("truth value of %s" % type(v).__name__)
 
     # ---- exploring all paths of a call
@@ -391,6 +408,10 @@ class VM:
     def call(self, f, args, kwargs):
         if isinstance(f, BuiltinV):
             return self.builtin(f.name, args, kwargs)
+        if isinstance(f, ExtV):
+            if f._call is None:
+                raise OutsideSubset("call of external %s" % (f.key,))
+            return f._call(self, args, kwargs)
         if isinstance(f, ClsV):
             return self.construct(f.name, args, kwargs)
         if isinstance(f, LambdaV):
@@ -808,6 +829,10 @@ class VM:
     def e_Attribute(self, e, env):
         base = self.eval(e.value, env)
         name = e.attr
+        if isinstance(base, ExtV):
+            if base._attr is None:
+                raise OutsideSubset("attribute .%s of external %s" % (name, base.key))
+            return base._attr(self, name)
         if isinstance(base, ClsV):
             info = self.m.classes.get(base.name)
             if info is None:
